@@ -170,8 +170,6 @@ def run_cmds(desc, tier, seed, res):
         k = row.kind
         if k in ("std", "stdn", "dapc"):
             dests = [(R.describe(a), a) for a in gear_objs] + [(("GearShort", i), i) for i in range(64)]
-            if quick and k != "std":
-                dests = dests[::3] + dests[-3:]
             for dd, d in dests:
                 if k == "std":
                     roundtrip(res, table, cls, lambda: cls(d), (dd,), cmd_fields)
@@ -179,7 +177,7 @@ def run_cmds(desc, tier, seed, res):
                     for p in range(16):
                         roundtrip(res, table, cls, lambda: cls(d, p), (dd, p), cmd_fields)
                 else:
-                    powers = range(256) if not quick else list(range(0, 256, 5)) + [254, 255]
+                    powers = range(256)
                     for p in powers:
                         roundtrip(res, table, cls, lambda: cls(d, p), (dd, p), cmd_fields)
                     for name, val in (("OFF", 0), ("MASK", 255)):
@@ -203,7 +201,7 @@ def run_cmds(desc, tier, seed, res):
             for d in dev_objs:
                 roundtrip(res, table, cls, lambda: cls(d), (R.describe(d),), cmd_fields)
         elif k == "inst":
-            ds = dev_objs if not quick else dev_objs[::9] + dev_objs[-2:]
+            ds = dev_objs if not quick else dev_objs[::3] + dev_objs[-2:]
             for d in ds:
                 for ins in insts:
                     di = R.describe(ins)
@@ -218,7 +216,7 @@ def run_cmds(desc, tier, seed, res):
                 roundtrip(res, table, cls, lambda: cls(p), (p,), cmd_fields)
         elif k == "dsp2":
             for a in range(256):
-                bs = range(256) if not quick else sorted({0, 1, 0x7F, 0x80, 0xFE, 0xFF, a, r.getrandbits(8)})
+                bs = range(256) if not quick else sorted({0, 1, 0x7F, 0x80, 0xFE, 0xFF, a} | {r.getrandbits(8) for _ in range(24)})
                 for b in bs:
                     roundtrip(res, table, cls, lambda: cls(a, b), (a, b), cmd_fields)
     res.distinct = len(table.t)
